@@ -223,6 +223,17 @@ func WalkExpr(v ssa.Value, f func(ssa.Value) bool) {
 			rec(x.X, d+1)
 		case *ssa.TypeAssert:
 			rec(x.X, d+1)
+		case *ssa.Next:
+			rec(x.Iter, d+1)
+		case *ssa.Range:
+			rec(x.X, d+1)
+		case *ssa.Alloc:
+			// a local cell passed by address (e.g. a value-typed atomic copied out of a map): its contents
+			for _, ref := range *x.Referrers() {
+				if st, ok := ref.(*ssa.Store); ok && st.Addr == ssa.Value(x) {
+					rec(st.Val, d+1)
+				}
+			}
 		}
 	}
 	rec(v, 0)
@@ -347,3 +358,16 @@ func (p *Prog) AccessorField(fn *ssa.Function) (string, bool) {
 }
 
 var accessorCache = map[*ssa.Function]string{}
+
+// DependsOnField reports whether v is computed from a read of the struct field "pkg.T.f".
+func DependsOnField(v ssa.Value, fieldKeys ...string) bool {
+	return DependsOn(v, func(x ssa.Value) bool {
+		switch y := x.(type) {
+		case *ssa.FieldAddr:
+			return hasKey([]string{FieldKeyOfAddr(y)}, fieldKeys)
+		case *ssa.Field:
+			return hasKey([]string{fieldKey(y.X.Type(), y.Field)}, fieldKeys)
+		}
+		return false
+	})
+}
